@@ -120,6 +120,23 @@ def case_split(hyps, goal, split_terms, quick_prune=True):
         yield "|".join(label), h2, g2
 
 
+def _poly_identity(g):
+    """goal is a conjunction of real equalities that hold as polynomial identities (sum-of-monomials
+    normal form of lhs - rhs is 0): discharged without a solver call (sound)"""
+    try:
+        if z3.is_and(g):
+            return all(_poly_identity(c) for c in g.children())
+        if z3.is_eq(g):
+            a, b = g.children()
+            if a.sort() != z3.RealSort():
+                return False
+            d = z3.simplify(a - b, som=True, mul_to_power=True, hoist_mul=False)
+            return z3.is_rational_value(d) and d.numerator_as_long() == 0
+    except Exception:
+        return False
+    return False
+
+
 def _has_quant(e):
     seen = set()
     stack = [e]
@@ -216,9 +233,51 @@ def solve_text(text, timeout_s, use_cvc5=True):
     except Exception as e:  # pragma: no cover
         return "unknown", "parse-error:" + str(e)[:80], time.time() - t0, None
     fm = list(fm)
+    # -1. subsumption: the goal follows from ONE hypothesis conjunct (linear relaxation, normalised polynomials)
+    try:
+        neg = [f for f in fm if z3.is_not(f)]
+        goal_neg = fm[-1]
+        atoms = []
+        for f in fm[:-1]:
+            if z3.is_and(f):
+                atoms.extend(f.children())
+            else:
+                atoms.append(f)
+        gn = z3.simplify(goal_neg, som=True, sort_sums=True, flat=True)
+        gs = gn.sexpr()
+        # only atoms that share a long common sub-string with the goal are tried (cheap relevance filter)
+        keys = [w for w in set(gs.replace("(", " ").replace(")", " ").split()) if len(w) > 3 and not w[0].isdigit()]
+        tried = 0
+        for a in atoms:
+            if tried > 200 or time.time() - t0 > timeout_s * 0.15:
+                break
+            an = z3.simplify(a, som=True, sort_sums=True, flat=True)
+            asx = an.sexpr()
+            if len(asx) > 4000 or not all(k in asx for k in keys[:6]):
+                continue
+            tried += 1
+            sa = z3.Solver()
+            sa.set("timeout", 300)
+            sa.set("smt.arith.nl", False)
+            sa.add(an, gn)
+            if sa.check() == z3.unsat:
+                return "unsat", "z3(one-hypothesis subsumption)", time.time() - t0, None
+    except Exception:
+        pass
+    # 0. linear relaxation: non-linear monomials are opaque (sound for unsat; sat answers are ignored)
+    try:
+        s0 = z3.SolverFor("QF_UFLRA") if False else z3.Solver()
+        s0.set("timeout", int(timeout_s * 450))
+        s0.set("smt.arith.nl", False)
+        # one polynomial normal form for hypotheses and goal, so equal polynomials are equal opaque terms
+        s0.add(*[z3.simplify(f, som=True, sort_sums=True, flat=True) for f in fm])
+        if s0.check() == z3.unsat:
+            return "unsat", "z3(linear relaxation)", time.time() - t0, None
+    except Exception:
+        pass
     # 1. default z3
     s = z3.Solver()
-    s.set("timeout", int(timeout_s * 400))
+    s.set("timeout", int(timeout_s * 250))
     s.add(*fm)
     r = s.check()
     if r == z3.unsat:
@@ -231,7 +290,7 @@ def solve_text(text, timeout_s, use_cvc5=True):
         fm2 = _abstract_ufs(fm)
         tac = z3.Then("simplify", "solve-eqs", "qfnra-nlsat")
         s2 = tac.solver()
-        s2.set("timeout", int(timeout_s * 400))
+        s2.set("timeout", int(timeout_s * 150))
         s2.add(*fm2)
         r2 = s2.check()
         if r2 == z3.unsat:
@@ -240,7 +299,7 @@ def solve_text(text, timeout_s, use_cvc5=True):
         pass
     # 3. cvc5
     if use_cvc5:
-        st = _cvc5(text, timeout_s)
+        st = _cvc5(text, max(1.0, timeout_s * 0.15))
         if st in ("unsat", "sat"):
             return st, "cvc5", time.time() - t0, None
     return "unknown", "z3+cvc5", time.time() - t0, None
@@ -278,6 +337,8 @@ def discharge(obligations, timeout_s=10, workers=None, use_cvc5=True):
         if ob.meta.get("split_forall", True) and fresh and len(fresh) <= 3 and ob.meta.get("auto_split", False):
             split = split + [c for c in fresh if c.sort() == z3.IntSort()]
         for label, h2, g2 in case_split(ob.hyps, goal, split):
+            if not z3.is_true(g2) and _poly_identity(g2):
+                g2 = z3.BoolVal(True)
             if z3.is_true(g2):
                 metas.append((ob, label, "trivial", ""))
                 jobs.append(None)
